@@ -302,6 +302,28 @@ def _check_hist(scn: Dict[str, Any], hist: Dict[str, Any]) -> List[dict]:
             if p[0] != q[0]:
                 V("py_rs_diverge", "py+rs-lcd", i, f"read value python {p[0]} rust {q[0]}", field="read")
                 break
+    if not viols:
+        # the rendered buffer against the documented layout, per implementation: a pixel is lit when its one VRAM
+        # bit is clear (the LCD is driven inverted) and its chip is on; a chip that is off contributes blank pixels
+        # whatever the other chip does.  Judged when every chip that is on has start line 0.
+        for ex, key in (("py-lcd", "py"), ("rs-lcd", "rs")):
+            chips = models[ex]
+            got = hist[key].get("pixels")
+            if done[ex] or not got or any(c.on and c.start_line != 0 for c in chips):
+                continue
+            exp = _expected_pixels(chips)
+            # only the regions of chips that are on are judged (what an off chip shows — blank in Python, its VRAM in
+            # Rust — is not stated by the property)
+            cols = []
+            if chips[1].on:
+                cols += list(range(0, 64)) + list(range(176, 240))
+            if chips[0].on:
+                cols += list(range(64, 176))
+            bad = [(r, x) for r in range(32) for x in cols if str(got[r][x]) != str(exp[r][x])]
+            if bad:
+                V("pixel_map", ex, len(scn["ops"]) - 1, f"rendered buffer differs from the layout at {len(bad)} pixels of chips "
+                  f"that are on, first (row {bad[0][0]}, column {bad[0][1]}); chips on (left, right) = {[c.on for c in chips]}",
+                  what="layout", chips_on="".join("1" if c.on else "0" for c in chips))
     if not viols and not split:
         chips = models["py-lcd"]
         if hist["py"]["vram"] != hist["rs"]["vram"]:
@@ -310,6 +332,23 @@ def _check_hist(scn: Dict[str, Any], hist: Dict[str, Any]) -> List[dict]:
             V("py_rs_diverge", "py+rs-lcd", len(scn["ops"]) - 1, "rendered display differs with both chips on and start line 0",
               field="pixels")
     return viols
+
+
+def _expected_pixels(chips) -> List[List[int]]:
+    """32 x 240 buffer from the two chips' VRAM by the documented layout (index 0 = left, 1 = right)."""
+    buf = [[0] * 240 for _ in range(32)]
+    left, right = chips[0], chips[1]
+    for row in range(32):
+        pg, bit = row // 8, row % 8
+        if right.on:
+            for col in range(64):
+                buf[row][col] = 1 - ((right.vram[pg][col] >> bit) & 1)
+                buf[row][176 + (63 - col)] = 1 - ((right.vram[4 + pg][col] >> bit) & 1)
+        if left.on:
+            for col in range(56):
+                buf[row][64 + col] = 1 - ((left.vram[pg][col] >> bit) & 1)
+                buf[row][120 + (55 - col)] = 1 - ((left.vram[4 + pg][col] >> bit) & 1)
+    return buf
 
 
 def _check_flip(scn: Dict[str, Any], hist: Dict[str, Any]) -> List[dict]:
